@@ -581,6 +581,20 @@ def gen_db_case(rng, kind, size):
             prog.append(['delete', c, o])       # external GC un-creates the object behind the connections' back
         else:
             prog.append(['abort', c])
+    if rng.random() < 0.3 and nobj >= 2:
+        # a dependency declared inside a savepoint region that is rolled back while the transaction
+        # goes on, and a competing commit to the object it depends on
+        c, c2 = rng.sample(range(nconn), 2)
+        oa, ob = rng.sample(objs, 2)
+        block = [['write', c, oa, 1, False], ['savepoint', c]]
+        if rng.random() < 0.5:
+            block = [['readcur', c, ob]] + block + [['write', c, ob, 1, False], ['savepoint', c]]
+        else:
+            block += [['readcur', c, ob], ['write', c, oa, 2, False]]
+        block += [['rollback', c, 0], ['write', c, oa, 3, False], ['write', c2, ob, 1, False], ['commit', c2],
+                  ['commit', c]]
+        k = rng.randrange(len(prog) + 1)
+        prog[k:k] = [['abort', c], ['abort', c2]] + block
     for c in range(nconn):
         prog.append(['commit', c])
     return dict(section='db', kind=kind, objs=objs, cls=cls, nconn=nconn, prog=prog)
@@ -988,6 +1002,8 @@ def gen_sched_case(rng, kind, seed):
                     p.append(['savepoint', 0])
                     if rng.random() < 0.4:
                         p.append(['write', 0, rng.choice(objs), rng.choice([1, 2]), False])
+                        if rng.random() < 0.5:
+                            p.append(['readcur', 0, rng.choice(objs)])      # declared AFTER the savepoint
                         p.append(['rollback', 0, rng.randrange(3)])
                         p.append(['write', 0, rng.choice(objs), rng.choice([1, 2]), False])
             if rng.random() < 0.2:
